@@ -42,6 +42,8 @@ def run(chk, repo: Repo):
                        "together with the point", floor=5)
     from ..cachepoint import cache_point_rule
     cache_point_rule(chk, repo, "C08-R6", [repo.cls("cuqi/experimental/mcmc/_hmc.py:NUTS")])
+    from ..cachepoint import point_writers_rule
+    point_writers_rule(chk, repo, "C08-R6", [repo.cls("cuqi/experimental/mcmc/_hmc.py:NUTS")])
     for mod, cls, iface in IMPLS:
         ci = repo.cls(f"{mod}:{cls}")
         _leapfrog(chk, repo, ci)
